@@ -25,7 +25,48 @@ package schemabuilder
 // elements exist before the one named by after; elemsAfter (result1): elements exist beyond the one
 // named by before - in the list the caller passed in.
 //@ func applyCursorsToAllEdges
+//@   ghost a int                      // index of *after in edges, -1 if after is nil or not in the list
+//@   ghost b int                      // index of *before in edges[a+1:], -1 likewise
+//@   entry ghost a = -1
+//@   entry ghost b = -1
+//@   call getCursorIndex#1 ghost a = ret0
+//@   call getCursorIndex#2 ghost b = ret0
 //@   assigns nothing
-//@   ensures forall a int, b int :: idx(edges, after, a) && idx(edges[a+1:], before, b) ==> winIs(result0, edges, a+1, ite(b == -1, len(edges), a+1+b))
-//@   ensures forall a int, b int :: idx(edges, after, a) && idx(edges[a+1:], before, b) ==> (result2 <==> a > 0)
-//@   ensures forall a int, b int :: idx(edges, after, a) && idx(edges[a+1:], before, b) ==> (result1 <==> (b != -1 && a+1+b < len(edges)-1))
+//@   ensures idx(edges, after, a) && idx(edges[a+1:], before, b)
+//@   ensures winIs(result0, edges, a+1, ite(b == -1, len(edges), a+1+b))
+//@   ensures result2 <==> a > 0
+//@   ensures result1 <==> (b != -1 && a+1+b < len(edges)-1)
+
+//@ pred safe64(p *int64) = ite(p == nil, 0, deref(p))
+//@ pred min(a int, b int) = ite(a <= b, a, b)
+
+// paginateManually: E = the edges on entry, [lo,hi) the cursor window (a, b as in applyCursorsToAllEdges), n = hi-lo.
+//   first=f:  page = window[:min(f,n)],      hasNextPage <=> n > f || elements beyond `before`,  hasPrevPage <=> elements before `after`
+//   last=l:   page = window[n-min(l,n):],    hasPrevPage <=> n > l || elements before `after`,   hasNextPage <=> elements beyond `before`
+//@ func Connection.paginateManually
+//@   ghost a int
+//@   ghost b int
+//@   entry ghost a = -1
+//@   entry ghost b = -1
+//@   call applyCursorsToAllEdges#1 ghost a = callee_a
+//@   call applyCursorsToAllEdges#1 ghost b = callee_b
+//@   requires c != nil
+//@   assigns Connection
+//@   ensures (safe64(args.First) < 0 || safe64(args.Last) < 0) ==> err != nil
+//@   ensures (args.First != nil && args.Last != nil) ==> err != nil
+//@   ensures (safe64(args.First) >= 0 && safe64(args.Last) >= 0 && !(args.First != nil && args.Last != nil)) ==> err == nil
+//@   ensures idx(old(c.Edges), args.After, a) && idx(old(c.Edges)[a+1:], args.Before, b)
+//@   ensures err == nil && args.First == nil && args.Last == nil ==> winIs(c.Edges, old(c.Edges), a+1, ite(b == -1, len(old(c.Edges)), a+1+b)) && (c.PageInfo.HasNextPage <==> (b != -1 && a+1+b < len(old(c.Edges))-1)) && (c.PageInfo.HasPrevPage <==> a > 0)
+//@   ensures err == nil && args.First != nil ==> winIs(c.Edges, old(c.Edges), a+1, a+1+min(deref(args.First), ite(b == -1, len(old(c.Edges)), a+1+b)-(a+1))) && (c.PageInfo.HasNextPage <==> (ite(b == -1, len(old(c.Edges)), a+1+b)-(a+1) > deref(args.First) || (b != -1 && a+1+b < len(old(c.Edges))-1))) && (c.PageInfo.HasPrevPage <==> a > 0)
+//@   ensures err == nil && args.Last != nil ==> winIs(c.Edges, old(c.Edges), ite(b == -1, len(old(c.Edges)), a+1+b)-min(deref(args.Last), ite(b == -1, len(old(c.Edges)), a+1+b)-(a+1)), ite(b == -1, len(old(c.Edges)), a+1+b)) && (c.PageInfo.HasPrevPage <==> (ite(b == -1, len(old(c.Edges)), a+1+b)-(a+1) > deref(args.Last) || a > 0)) && (c.PageInfo.HasNextPage <==> (b != -1 && a+1+b < len(old(c.Edges))-1))
+
+//@ func Connection.setCursors
+//@   requires c != nil
+//@   assigns Connection
+//@   ensures c.Edges == old(c.Edges) && c.TotalCount == old(c.TotalCount) && c.PageInfo.HasNextPage == old(c.PageInfo.HasNextPage) && c.PageInfo.HasPrevPage == old(c.PageInfo.HasPrevPage)
+//@   ensures len(c.Edges) > 0 ==> c.PageInfo.StartCursor == c.Edges[0].Cursor && c.PageInfo.EndCursor == c.Edges[len(c.Edges)-1].Cursor
+//@   ensures len(c.Edges) == 0 ==> c.PageInfo.StartCursor == old(c.PageInfo.StartCursor) && c.PageInfo.EndCursor == old(c.PageInfo.EndCursor)
+
+// With unique keys the end cursor of a page names exactly one position, so the window computed for
+// after=endCursor starts right behind the previous page (and symmetrically for before=startCursor).
+//@ lemma cursor_names_position: forall L []Edge, e int :: (forall i int, j int :: 0 <= i && i < j && j < len(L) ==> L[i].Cursor != L[j].Cursor) && 0 <= e && e < len(L) ==> cursorAt(L, L[e].Cursor, e)
